@@ -144,7 +144,15 @@ def case_replay(c: Case, **kw) -> Dict[str, Any]:
     return r
 
 
+CHUNK = 40
+
+
 def check_c01(run: common.Run, drv: common.Driver, rng: random.Random, n_schemas: int, n_values: int) -> None:
+    for start in range(0, n_schemas, CHUNK):
+        _check_c01(run, drv, rng, min(CHUNK, n_schemas - start), n_values)
+
+
+def _check_c01(run: common.Run, drv: common.Driver, rng: random.Random, n_schemas: int, n_values: int) -> None:
     cases = run_python_cases(run, rng, n_schemas, n_values, G.GenOpts(), want_decode=False)
     reqs = []
     for c in cases:
@@ -157,8 +165,8 @@ def check_c01(run: common.Run, drv: common.Driver, rng: random.Random, n_schemas
     for k, c in enumerate(cases):
         spec, model, nb = ans[3 * k], ans[3 * k + 1], ans[3 * k + 2]
         run.evaluated()
-        if k < 3:
-            run.sample({"request": reqs[3 * k], "spec": spec, "real": c.real_enc})
+        if k < 2:
+            run.sample({"request": reqs[3 * k], "spec": spec, "real": c.real_enc}, limit=3)
         for t in shape_key(c.msg):
             run.count(f"leaf:{t[0]}")
             run.nontrivial(t)
@@ -181,6 +189,14 @@ def check_c01(run: common.Run, drv: common.Driver, rng: random.Random, n_schemas
 
 
 def check_c02(run: common.Run, drv: common.Driver, rng: random.Random, n_schemas: int, n_values: int) -> None:
+    run.notes["kf_py_enum_default_cases"] = 0
+    replay_known_c02(run)
+    replay_corpus_c02(run)
+    for start in range(0, n_schemas, CHUNK):
+        _check_c02(run, drv, rng, min(CHUNK, n_schemas - start), n_values)
+
+
+def _check_c02(run: common.Run, drv: common.Driver, rng: random.Random, n_schemas: int, n_values: int) -> None:
     cases = run_python_cases(run, rng, n_schemas, n_values, G.GenOpts(), want_decode=True)
     reqs = []
     for c in cases:
@@ -199,8 +215,8 @@ def check_c02(run: common.Run, drv: common.Driver, rng: random.Random, n_schemas
         spec_enc = enc[k]
         spec_dec, model_dec = ans[2 * k], ans[2 * k + 1]
         run.evaluated()
-        if k < 3:
-            run.sample({"request": reqs[2 * k + 1], "model": model_dec, "real": c.real_dec})
+        if k < 2:
+            run.sample({"request": reqs[2 * k + 1], "model": model_dec, "real": c.real_dec}, limit=3)
         for t in shape_key(c.msg):
             run.count(f"leaf:{t[0]}")
             run.nontrivial(t)
@@ -233,4 +249,279 @@ def check_c02(run: common.Run, drv: common.Driver, rng: random.Random, n_schemas
         # tie: the model must agree with the real decode
         if "ok" not in model_dec or G.msg_val_from_json(c.msg, model_dec["ok"]) != c.val:
             run.notes.setdefault("model_disagreements", []).append(case_replay(c, observed_impl=c.real_dec, model_answer=model_dec))
-    run.notes["kf_py_enum_default_cases"] = kf_default
+    run.notes["kf_py_enum_default_cases"] += kf_default
+
+
+# ===================================================================== known findings / corpus
+import json
+import os
+
+
+def _num_keys(v):
+    """JSON object keys back to ints (values in findings/corpus files are keyed by field number)"""
+    if isinstance(v, dict):
+        return {int(k): _num_keys(x) for k, x in v.items()}
+    if isinstance(v, list):
+        return [_num_keys(x) for x in v]
+    return v
+
+
+def _compile_text(sc: R.Scratch, name: str, text: str):
+    path = sc.write(name, text)
+    proto = R.parse_file(path)
+    out = R.render_strings(proto, "py")
+    return R.load_py_module(out[".py"], name.replace(".", "_"))
+
+
+def _set_plain(obj, v):
+    """assign a {num: value} tree to a generated message using the processor's field order;
+    used for findings/corpus files that carry no abstract schema: fields are matched by the
+    order of dataclass fields sorted as the module lists them (field-number order)."""
+    raise NotImplementedError
+
+
+def replay_known_c02(run: common.Run) -> None:
+    """KF-py-enum-default: replay the witness on the real code; print KNOWN-FINDING if it still
+    fails in the recorded way."""
+    kf = json.load(open(os.path.join(common.VERIF, "findings", "KF-py-enum-default.C02.json")))
+    with R.Scratch() as sc:
+        mod = _compile_text(sc, "kf.bitproto", kf["input"]["files"]["main.bitproto"])
+        m = mod.M()
+        m.e = 0
+        b = m.encode()
+        x = mod.M()
+        x.decode(b)
+        try:
+            got = int(x.e)
+        except ValueError:
+            got = "ValueError"
+        R.unload(mod)
+    run.notes["KF-py-enum-default"] = {"observed": got}
+    if got == 0:
+        run.notes["KF-py-enum-default"]["status"] = "no longer fails on this tree"
+    elif got == 1:
+        run.known_finding("python: enum whose first declared member is not 0 decodes OR-ed with that member "
+                          "(enum E:uint1 {A=1;B=0}: B decodes as A) [KF-py-enum-default]")
+    else:
+        run.violation({"kind": "impl-vs-spec", "input": kf["input"], "observed_impl": got,
+                       "expected_by_spec": 0, "note": "KF-py-enum-default witness fails in a new way"})
+
+
+def replay_corpus_c02(run: common.Run) -> None:
+    """fixed findings are ordinary regression cases: they must pass, silently"""
+    c = json.load(open(os.path.join(common.VERIF, "corpus", "fixed-py-enum-chunk.json")))
+    with R.Scratch() as sc:
+        mod = _compile_text(sc, "e.bitproto", c["schema"])
+        v = _num_keys(c["value"])
+        names = {1: "pad", 2: "b", 3: "s", 4: "ss", 5: "bb", 6: "p2", 7: "s2"}
+        try:
+            m = mod.M()
+            for k, n in names.items():
+                setattr(m, n, v[k])
+            b = m.encode()
+            x = mod.M()
+            x.decode(b)
+            got = {k: ([int(e) for e in getattr(x, n)] if isinstance(v[k], list) else int(getattr(x, n))) for k, n in names.items()}
+            ok = got == v and x.encode() == b
+        except Exception as e:
+            got = f"{type(e).__name__}: {e}"
+            ok = False
+        R.unload(mod)
+    run.evaluated()
+    if not ok:
+        run.violation({"kind": "impl-vs-spec", "input": c, "observed_impl": got, "expected_by_spec": v,
+                       "note": "regression of fixed finding KF-py-enum-chunk"})
+    replay_corpus_array_skip(run, "C02")
+
+
+def replay_corpus_array_skip(run: common.Run, pid: str) -> None:
+    c = json.load(open(os.path.join(common.VERIF, "corpus", "fixed-array-skip.json")))
+    names = {1: "a", 2: "b", 3: "c", 4: "d"}
+
+    def build(mod, v):
+        m = mod.M()
+        for k, n in names.items():
+            x = v[k]
+            setattr(m, n, [bool(e) for e in x] if k == 3 else x)
+        return m
+
+    def read(m):
+        return {k: ([int(e) for e in getattr(m, n)] if k in (1, 3) else int(getattr(m, n))) for k, n in names.items()}
+
+    with R.Scratch() as sc:
+        old = _compile_text(sc, "a1.bitproto", c["old"])
+        new = _compile_text(sc, "a2.bitproto", c["new"])
+        try:
+            if pid == "C02":
+                v = _num_keys(c["value_old"])
+                m = build(old, v)
+                b = m.encode()
+                x = old.M()
+                x.decode(b)
+                got, exp = read(x), v
+            else:
+                v = _num_keys(c["value_new"])
+                b = build(new, v).encode()
+                x = old.M()
+                x.decode(b)
+                got, exp = read(x), _num_keys(c["expect_old_decode"])
+            ok = got == exp
+        except Exception as e:
+            got, exp, ok = f"{type(e).__name__}: {e}", None, False
+        R.unload(old)
+        R.unload(new)
+    run.evaluated()
+    if not ok:
+        run.violation({"kind": "impl-vs-spec", "input": c, "observed_impl": got, "expected_by_spec": exp,
+                       "note": "regression of fixed finding KF-array-skip"})
+
+
+# ===================================================================== C05: evolution chains
+import copy
+
+
+def devolve(s: G.Schema, rng: random.Random):
+    """an OLDER version of schema `s`: highest-numbered fields dropped from some extensible
+    messages, capacities of some extensible arrays reduced (>= 1), at any nesting depth.
+    Returns (old schema, mapping new-def-id -> old def)."""
+    memo: dict = {}
+    old = copy.deepcopy(s, memo)
+    mapping = {}
+    for k, v in memo.items():
+        if isinstance(v, (G.MsgDef, G.EnumDef, G.AliasDef)):
+            mapping[k] = v
+    changed = 0
+
+    def shrink_type(t):
+        nonlocal changed
+        if isinstance(t, G.TArray):
+            if t.ext and t.cap > 1 and rng.random() < 0.6:
+                t.cap = rng.randint(1, t.cap - 1)
+                changed += 1
+            shrink_type(t.elem)
+
+    def visit(d):
+        nonlocal changed
+        if isinstance(d, G.AliasDef):
+            shrink_type(d.type)
+        elif isinstance(d, G.MsgDef):
+            for n in d.nested:
+                visit(n)
+            if d.ext and d.fields and rng.random() < 0.6:
+                k = rng.randint(1, len(d.fields))
+                keep = sorted(d.fields, key=lambda f: f.num)[: len(d.fields) - k]
+                keepset = {id(f) for f in keep}
+                d.fields = [f for f in d.fields if id(f) in keepset]
+                changed += 1
+            for f in d.fields:
+                shrink_type(f.type)
+
+    for d in old.defs:
+        visit(d)
+    old.proto = s.proto + "o"
+    return old, mapping, changed
+
+
+def project(t_old, t_new, v):
+    """restriction of a newer value to the older schema (harness' own implementation)"""
+    if isinstance(t_old, G.TArray):
+        return [project(t_old.elem, t_new.elem, x) for x in v[: t_old.cap]]
+    if isinstance(t_old, G.TRef):
+        d = t_old.d
+        if isinstance(d, G.AliasDef):
+            return project(d.type, t_new.d.type, v)
+        if isinstance(d, G.MsgDef):
+            nf = {f.num: f for f in t_new.d.fields}
+            return {f.num: project(f.type, nf[f.num].type, v[f.num]) for f in d.fields}
+    return v
+
+
+def check_c05(run: common.Run, drv: common.Driver, rng: random.Random, n_chains: int, n_values: int) -> None:
+    replay_corpus_array_skip(run, "C05")
+    opts = G.GenOpts(enum_zero_first=True)
+    opts.max_fields = 5
+    for start in range(0, n_chains, 20):
+        _check_c05(run, drv, rng, min(20, n_chains - start), n_values, opts)
+
+
+def _check_c05(run, drv, rng, n_chains, n_values, opts) -> None:
+    jobs = []  # (texts, msg_old, msg_new, val_new, real_new_bytes, real_old_decode, depth)
+    with R.Scratch() as sc:
+        for k in range(n_chains):
+            g = G.SchemaGen(rng, opts)
+            newest = g.schema()
+            # force some extensibility so that evolution is possible
+            versions = [newest]
+            maps = []
+            for _ in range(rng.randint(1, 3)):
+                o, mp, ch = devolve(versions[-1], rng)
+                versions.append(o)
+                maps.append(mp)
+            texts = [G.schema_text(v, rng) for v in versions]
+            mods = []
+            try:
+                for j, txt in enumerate(texts):
+                    mods.append(_compile_text(sc, f"c{k}_{j}.bitproto", txt))
+            except Exception as e:
+                run.violation({"kind": "compile-failed", "input": {"files": {f"v{j}.bitproto": t for j, t in enumerate(texts)}},
+                               "observed_impl": f"{type(e).__name__}: {e}"})
+                continue
+            new_msgs = newest.messages()
+            for m_new in new_msgs:
+                # corresponding older definitions along the chain
+                chain = [m_new]
+                for mp in maps:
+                    chain.append(mp[id(chain[-1])])
+                for _ in range(n_values):
+                    v = G.rand_msg_value(rng, m_new)
+                    try:
+                        b = bytes(R.py_build(mods[0], m_new, v).encode())
+                    except Exception as e:
+                        run.violation({"kind": "impl-vs-spec", "input": {"files": {"new.bitproto": texts[0]}},
+                                       "observed_impl": f"encode raised {type(e).__name__}"})
+                        continue
+                    for j in range(1, len(chain)):
+                        m_old = chain[j]
+                        try:
+                            o = getattr(mods[j], G.py_name(m_old))()
+                            o.decode(bytearray(b))
+                            got = ("ok", R.py_read(m_old, o))
+                        except Exception as e:
+                            got = ("exc", type(e).__name__)
+                        jobs.append((texts[0], texts[j], m_old, m_new, v, b.hex(), got, j))
+            for md in mods:
+                R.unload(md)
+    reqs = []
+    for (tn, to, m_old, m_new, v, bh, got, j) in jobs:
+        reqs.append({"op": "spec.encode", "ty": G.msg_ty_json(m_new), "val": G.msg_val_json(m_new, v)})
+        reqs.append({"op": "spec.project", "ty": G.msg_ty_json(m_old), "ty_new": G.msg_ty_json(m_new),
+                     "val": G.msg_val_json(m_new, v)})
+        reqs.append({"op": "py.decode", "ty": G.msg_ty_json(m_old), "bytes": bh})
+    ans = drv.batch(reqs)
+    for k, (tn, to, m_old, m_new, v, bh, got, j) in enumerate(jobs):
+        enc, prj, mdl = ans[3 * k], ans[3 * k + 1], ans[3 * k + 2]
+        run.evaluated()
+        exp = project(G.TRef(m_old), G.TRef(m_new), v)
+        differs = G.msg_ty_json(m_old) != G.msg_ty_json(m_new)
+        run.count("pairs_with_real_evolution" if differs else "pairs_identical")
+        run.count(f"chain_distance_{j}")
+        if differs:
+            run.nontrivial((shape_key(m_old), shape_key(m_new)))
+        if k < 2:
+            run.sample({"old": G.msg_ty_json(m_old), "new": G.msg_ty_json(m_new), "val": G.msg_val_json(m_new, v),
+                        "bytes": bh, "old_decodes": got[1] if got[0] == "ok" else got}, limit=2)
+        replay = {"input": {"files": {"new.bitproto": tn, "old.bitproto": to}, "message_old": G.py_name(m_old),
+                            "message_new": G.py_name(m_new), "ty_old": G.msg_ty_json(m_old),
+                            "ty_new": G.msg_ty_json(m_new), "val": G.msg_val_json(m_new, v), "bytes": bh}}
+        if "ok" not in enc or enc["ok"] != bh:
+            run.violation(dict(replay, kind="impl-vs-spec", observed_impl=bh, expected_by_spec=enc,
+                               note="newest encode differs from the specification (C01)"))
+            continue
+        if "ok" not in prj or G.msg_val_from_json(m_old, prj["ok"]) != exp:
+            run.violation(dict(replay, kind="harness-vs-spec", expected_by_spec=prj, note="Spec.proj differs from the harness' projection"))
+            continue
+        if got != ("ok", exp):
+            run.violation(dict(replay, kind="impl-vs-spec", observed_impl=got, expected_by_spec=exp, model_answer=mdl))
+            continue
+        if "ok" not in mdl or G.msg_val_from_json(m_old, mdl["ok"]) != exp:
+            run.notes.setdefault("model_disagreements", []).append(dict(replay, observed_impl=got, model_answer=mdl))
